@@ -1,8 +1,8 @@
 #!/bin/bash
 # Re-verify every seeded change on the CURRENT /repo HEAD and re-run its property's check against it.
 # Output: one line per change.  (Phase 1 in parallel, phase 2 serial because checks share /verif/_build.)
-cd /verif
-ls -d seeded/C??-? | sed 's#seeded/##' | while read id; do p=${id%-*}; echo "$p /verif/seeded/$id $id"; done \
+V=${VERIF_DIR:-/verif}; cd $V
+ls -d seeded/C??-? | sed 's#seeded/##' | while read id; do p=${id%-*}; echo "$p $V/seeded/$id $id"; done \
   | xargs -P 5 -L 1 tools/seed_verify.sh 2>&1 | grep -v WARNING | sort > _build/seed_campaign.verify.txt
 cat _build/seed_campaign.verify.txt
 for id in $(ls -d seeded/C??-? | sed 's#seeded/##'); do
